@@ -12,7 +12,7 @@ import (
 	"bytes"
 	"fmt"
 	"runtime"
-	"sort"
+
 	"strconv"
 	"strings"
 	"sync"
@@ -707,11 +707,13 @@ func c01Minify(src string, ver int, keep bool) (out string, err error, crash str
 }
 
 type c01Case struct {
-	prog c01Prog
-	src  string
-	ver  int
-	out  string
-	tag  string
+	prog     c01Prog
+	src      string
+	ver      int
+	out      string
+	tag      string
+	rename   bool // KeepVarNames off
+	minified bool
 }
 
 func c01Ver2020(v int) bool { return v == 0 || v >= 2020 }
@@ -755,6 +757,7 @@ func c01RunStage(c *Ctx, name, rule string, cases []*c01Case, exhaustive bool, n
 			continue
 		}
 		cs.out = out
+		cs.minified = true
 		v := int64(0)
 		if c01Ver2020(cs.ver) {
 			v = 1
@@ -793,11 +796,251 @@ func c01RunStage(c *Ctx, name, rule string, cases []*c01Case, exhaustive bool, n
 		c.R.Note("%s: %d of %d cases outside the modelled fragment (node only)", name, unmodelled, len(cases))
 	}
 	st.End()
+	if nodeShare <= 0 {
+		return nil
+	}
+	// independent oracle: a seeded sample of the (input, real output) pairs is executed by node
+	var sample []*c01Case
+	for i, cs := range cases {
+		if cs.out == "" && cs.src != "" && !cs.minified {
+			continue
+		}
+		if nodeShare >= 100 || (i*7919+int(c.Seed))%100 < nodeShare {
+			sample = append(sample, cs)
+		}
+	}
+	if !c.Thorough() && len(sample) > 3000 {
+		// quick tier: at most 3000 programs per stage through node (evenly spread over the stage)
+		step := float64(len(sample)) / 3000
+		var cut []*c01Case
+		for k := 0; k < 3000; k++ {
+			cut = append(cut, sample[int(float64(k)*step)])
+		}
+		sample = cut
+	}
+	return c01NodeStage(c, name+"-node", sample, true)
+}
+
+// triggers of the open known findings (filled by c01KnownAndCorpus)
+var c01OpenTriggers = map[string]bool{}
+
+// c01DiffClass reduces a jsrun difference to its class (for the signature of a finding).
+func c01DiffClass(why string) string {
+	for _, k := range []string{"output does not parse", "trace", "completion", "globals", "lex", "objs"} {
+		if strings.HasPrefix(why, k) {
+			return k
+		}
+	}
+	if i := strings.IndexAny(why, " :"); i > 0 {
+		return why[:i]
+	}
+	return why
+}
+
+// c01NodeStage executes input and output of every case under node (2 host-world seeds each) and reports behavioural
+// differences as failing inputs, unless the case falls under an open known finding (fragment: trig.c01.known in Lean;
+// sweep: syntactic trigger c01SwClassify).
+func c01NodeStage(c *Ctx, name string, cases []*c01Case, fragment bool) error {
+	st := c.R.StartStage(name, "input and real output executed by node in fresh vm contexts with recording host functions/objects (2 seeded host worlds per program): same call trace, same final globals, same completion; non-trivial = output text differs from input text")
+	var pairs []c01Pair
+	for i, cs := range cases {
+		for k := 0; k < 2; k++ {
+			pairs = append(pairs, c01Pair{ID: len(pairs), A: cs.src, B: cs.out, Seed: int(c.Seed)*1000 + i*2 + k})
+		}
+	}
+	res, err := c01NodeCompare(pairs)
+	if err != nil {
+		return err
+	}
+	type bad struct {
+		cs  *c01Case
+		res c01NodeResult
+	}
+	var bads []bad
+	skipped := 0
+	for i, cs := range cases {
+		st.Count(cs.src+" ["+cs.cfg()+"]", cs.out != cs.src)
+		for k := 0; k < 2; k++ {
+			r := res[i*2+k]
+			if r.Skip != "" {
+				skipped++
+				st.Tag("skip:" + strings.SplitN(r.Skip, ":", 2)[0])
+				continue
+			}
+			if !r.Same {
+				bads = append(bads, bad{cs, r})
+				break
+			}
+		}
+	}
+	if skipped > 0 {
+		c.R.Note("%s: %d of %d executions skipped by the oracle (input does not run: syntax error / timeout)", name, skipped, len(pairs))
+	}
+	// classify the failures
+	var known []bool
+	if fragment && len(bads) > 0 {
+		lines := make([]string, len(bads))
+		for i, b := range bads {
+			v := int64(0)
+			if c01Ver2020(b.cs.ver) {
+				v = 1
+			}
+			lines[i] = "trig.c01.known " + h.Int(v) + " " + h.HexS(b.cs.prog.Enc())
+		}
+		rep, err := h.Eval(lines)
+		if err != nil {
+			return err
+		}
+		for _, r := range rep {
+			got, ok, _ := h.DecodeReply(r)
+			known = append(known, ok && string(got) == "1")
+		}
+	}
+	for i, b := range bads {
+		kn := ""
+		if fragment {
+			if known[i] {
+				kn = "K-C01 (trig.c01.known)"
+			}
+		} else {
+			// only triggers of OPEN known findings count
+			var ids []string
+			for _, id := range c01SwClassify(b.cs.src) {
+				if c01OpenTriggers[id] {
+					ids = append(ids, id)
+				}
+			}
+			kn = strings.Join(ids, ",")
+		}
+		if kn != "" {
+			c.R.ExcludedKnown++
+			st.Tag("known:" + kn)
+			continue
+		}
+		c.R.Add(h.Finding{Stage: name, Kind: "fail", What: "behaviour of the minified program differs under node: " + c01DiffClass(b.res.Why),
+			Input: b.cs.src, Config: b.cs.cfg(), Impl: b.cs.out, Model: b.res.Why + " | input: " + b.res.OA + " | output: " + b.res.OB})
+	}
+	st.End()
 	return nil
+}
+
+func (cs *c01Case) cfg() string {
+	return fmt.Sprintf("version=%d keepVarNames=%v", cs.ver, !cs.rename)
+}
+
+// ---------- known findings, regression corpus, sweep ----------
+
+// inputs of defects that were repaired in /repo (fix: commits): they must pass under node
+var c01FixedCorpus = []string{
+	"x=(a??b)|c", "x=(a==null?b:a)|c", "(a,b|c)+f(1)", "(a,!(p&&q))&&f(1)", "a&&=(f(1),g(2))", "a||=(f(1),g(2))", "a??=(f(1),g(2))",
+	"if(a&&=b){}", "x=a===null||a===null", "x=a===undefined||a===undefined", "x=a!==null&&a!==null", "x=(1)['a']", "x=a*'b'+'c'",
+	"if(a){if(b)throw 1;else;}else f(1)", "x=''?1:2", "if(''){f(1)}else{g(2)}", "x=void(f(1)+1)", "if(f(1)+1){}",
+	// second batch (found by the sweep outside the fragment)
+	"function t(p=f(1)){}t()", "function t(p,q=1){p=2;return arguments[0]}f(t(1))", "{const{[f(1)]:d}=0}", "if(a){let{a:d=f(1)}=0}",
+	"class C{static 0=f(1)}g(C[0])", "class C{static{if(f(1)){}}}", "function q(undefined){return undefined}f(q(1))",
+	"x=\"\\\n\"?1:2", "x=!\"\\\n\"", "if(a in b){}", "x=void(a in b)", "function t(p){if((p||'')instanceof q){}}x=t(a)",
+	"function t(p1){class C{static{let e=f(1);k(e,p1)}}}t(5)", "for(var i of[1]){const[]=[]}", "for(var i of[1]){function t(){}}f(typeof t)", "if(a){f(1)}else{async function t(){}}",
+	"x=a===null||a===undefined", "x=a==null?b:a", "x=a?true:false", "x=!a?b:c", "x=a?a:b", "x=(f(1),a)?a:g(2)",
+}
+
+func c01KnownAndCorpus(c *Ctx) error {
+	st := c.R.StartStage("known+corpus", "replay of every open known finding (must still differ under node, else NOTE) and of the inputs of repaired defects (must agree under node), 8 (quick) / 32 (thorough) host-world seeds each")
+	run := func(src string, ver int, rename bool) (out string, differs bool, why string, err error) {
+		o, merr, crash := c01Minify(src, ver, !rename)
+		if crash != "" || merr != nil {
+			return "", true, "minify failed: " + crash + fmt.Sprint(merr), nil
+		}
+		var pairs []c01Pair
+		for k := 0; k < c.N(8, 32); k++ {
+			pairs = append(pairs, c01Pair{ID: k, A: src, B: o, Seed: k})
+		}
+		res, e := c01NodeCompare(pairs)
+		if e != nil {
+			return o, false, "", e
+		}
+		for _, r := range res {
+			if r.Skip == "" && !r.Same {
+				return o, true, r.Why, nil
+			}
+		}
+		return o, false, "", nil
+	}
+	for _, k := range h.Known("C01") {
+		if k.Status != "open" {
+			continue
+		}
+		src := k.ReplayStr("src")
+		rename, _ := k.Replay["rename"].(bool)
+		out, differs, why, err := run(src, 0, rename)
+		if err != nil {
+			return err
+		}
+		st.Count("known "+k.ID+": "+src, true)
+		c.R.AddKnown(k.ID, differs, k.What, out+" | "+why)
+	}
+	for _, k := range h.Known("C01") {
+		if k.Status == "fixed" {
+			if src := k.ReplayStr("input"); src != "" {
+				c01FixedCorpus = append(c01FixedCorpus, src)
+			}
+		}
+	}
+	for _, src := range c01FixedCorpus {
+		for _, rename := range []bool{false, true} {
+			out, differs, why, err := run(src, 0, rename)
+			if err != nil {
+				return err
+			}
+			st.Count(fmt.Sprintf("corpus %s rename=%v", src, rename), out != src)
+			if differs {
+				c.R.Add(h.Finding{Stage: "known+corpus", Kind: "fail", What: "regression corpus: behaviour differs under node: " + c01DiffClass(why), Input: src, Config: fmt.Sprintf("version=0 keepVarNames=%v", !rename), Impl: out, Model: why})
+			}
+		}
+	}
+	st.End()
+	return nil
+}
+
+func c01Sweep(c *Ctx) error {
+	// forms under open known findings are not generated (the findings are replayed by c01KnownAndCorpus)
+	for t := range c01OpenTriggers {
+		c01SwAvoid[t] = true
+	}
+	n := c.N(700, 12000)
+	progs := append(c01SweepFixed(), c01SweepPrograms(c.Rng.Fork(), n)...)
+	var cases []*c01Case
+	rejected := 0
+	for _, src := range progs {
+		for _, rename := range []bool{true, false} {
+			out, err, crash := c01Minify(src, 0, !rename)
+			if crash != "" {
+				c.R.Add(h.Finding{Stage: "sweep-node", Kind: "crash", What: "js.Minify " + crash, Input: src})
+				continue
+			}
+			if err != nil {
+				rejected++
+				continue
+			}
+			cases = append(cases, &c01Case{src: src, out: out, ver: 0, rename: rename, minified: true})
+		}
+	}
+	if rejected > 0 {
+		c.R.Note("sweep: js.Minify rejected %d of %d inputs (parser limitations; no output to judge)", rejected, 2*len(progs))
+	}
+	return c01NodeStage(c, "sweep-node", cases, false)
 }
 
 func init() {
 	register("C01", func(c *Ctx) error {
+		for _, k := range h.Known("C01") {
+			if k.Status == "open" {
+				for _, t := range strings.Split(k.Trigger, ",") {
+					if t = strings.TrimSpace(t); t != "" {
+						c01OpenTriggers[t] = true
+					}
+				}
+			}
+		}
 		// stage 1: exhaustive small expressions
 		var cases []*c01Case
 		forms := c01QuickForms
@@ -832,7 +1075,7 @@ func init() {
 			}
 			c01Enum(fs, n, c.Thorough() && n <= 2, func(e *c01E) { addExpr(e, fmt.Sprintf("ops=%d", n)) })
 		}
-		if err := c01RunStage(c, "enum-expr", "all expression trees with ≤ 3 operator nodes (one operator per precedence level in the quick tier; all operators for ≤ 2 nodes in the thorough tier), minimal and fully parenthesised variants, as `x=e` and as statement `e`; non-trivial = output differs from the input with spaces removed", cases, true, 0); err != nil {
+		if err := c01RunStage(c, "enum-expr", "all expression trees with ≤ 3 operator nodes (one operator per precedence level in the quick tier; all operators for ≤ 2 nodes in the thorough tier), minimal and fully parenthesised variants, as `x=e` and as statement `e`; non-trivial = output differs from the input with spaces removed", cases, true, c.N(1, 10)); err != nil {
 			return err
 		}
 		// stage 2: random larger expressions, all versions
@@ -849,7 +1092,7 @@ func init() {
 			}
 			cases = append(cases, &c01Case{prog: p, src: p.Src(), ver: c01Versions[g.r.Intn(len(c01Versions))]})
 		}
-		if err := c01RunStage(c, "random-expr", "seeded random expressions of 2–7 operator nodes biased towards conditional / negation / equality / nullish forms with repeated variables and literals, versions {0,2015,2019,2020,2022}", cases, false, 0); err != nil {
+		if err := c01RunStage(c, "random-expr", "seeded random expressions of 2–7 operator nodes biased towards conditional / negation / equality / nullish forms with repeated variables and literals, versions {0,2015,2019,2020,2022}", cases, false, c.N(40, 100)); err != nil {
 			return err
 		}
 		// stage 3: statement lists
@@ -859,10 +1102,15 @@ func init() {
 			p := g.prog()
 			cases = append(cases, &c01Case{prog: p, src: p.Src(), ver: c01Versions[g.r.Intn(len(c01Versions))]})
 		}
-		if err := c01RunStage(c, "random-stmts", "seeded random statement lists (expression, if/else, return, throw, block, empty) at top level and in a function body", cases, false, 0); err != nil {
+		if err := c01RunStage(c, "random-stmts", "seeded random statement lists (expression, if/else, return, throw, block, empty) at top level and in a function body", cases, false, c.N(60, 100)); err != nil {
 			return err
 		}
-		_ = sort.Strings
+		if err := c01KnownAndCorpus(c); err != nil {
+			return err
+		}
+		if err := c01Sweep(c); err != nil {
+			return err
+		}
 		return nil
 	})
 }
